@@ -23,7 +23,7 @@ EXHAUSTIVE_SUBDOMAINS = ["subtype(1-4) x sign x 10-bit field 0..1023 for both fi
                          "GNSS-baro difference 0..127 x sign", "surface movement 0..127 x status x track 0..127"]
 ASSUMPTIONS = ["altitude_diff code 127 ('> 3137.5 ft') may decode to None or +-3150: the statement does not settle it",
                "ground speed is accepted within 1 kt of hypot (the implementation truncates to int)"]
-REQUIRED = ["st1", "st2", "st3", "st4", "whole_none", "hdg_none", "hdg_north", "spd_none", "vr_none", "diff_none", "surface",
+REQUIRED = ["st1", "speed_within_3e-4_of_a_whole_knot", "st2", "st3", "st4", "whole_none", "hdg_none", "hdg_north", "spd_none", "vr_none", "diff_none", "surface",
             "mov_none", "trk_none", "routing"]
 
 
@@ -44,6 +44,23 @@ def expected_tc19(st, f14, a, f25, b, vr_src, vr_sign, vr):
     return (spd, hdg, vs, "TAS" if f25 else "IAS", "MAGNETIC_NORTH", src)
 
 
+_MODE = []
+
+
+def speed_mode():
+    """how THIS implementation makes the ground speed a number, probed once per process on a (2, 2) kt vector (sqrt 8 = 2.83):
+    'trunc' (2), 'nearest' (3) or 'exact' (2.83...).  The property does not fix the choice, but an implementation makes ONE: a
+    result that is the truncated value for one vector and the rounded value for another is off by a knot for one of them."""
+    if not _MODE:
+        from pyModeS import adsb
+        me = radsb.tc19(1, 0, 3, 0, 3, 0, 0, 1, 0, 1, 0, 0, 0, 0)
+        r = call(adsb.velocity, "%028X" % bits.es_frame(17, 5, 0x4840D6, me))
+        v = r[1][0] if r[0] == "ok" and isinstance(r[1], tuple) else None
+        _MODE.append("trunc" if v == 2 and not isinstance(v, float) or v == 2.0 else "nearest" if v == 3 else
+                     "exact" if isinstance(v, float) and abs(v - 8 ** 0.5) < 1e-6 else "any")
+    return _MODE[0]
+
+
 def compare(obs, exp):
     if exp is None or obs is None:
         return obs is None and exp is None
@@ -60,6 +77,9 @@ def compare(obs, exp):
             nearest = t + 1 if (2 * t + 1) ** 2 <= 4 * s2 else t
             if not (o == t or o == nearest or abs(o - math.sqrt(s2)) <= 1e-6):
                 return False
+            mode = speed_mode()
+            if (mode == "trunc" and o != t) or (mode == "nearest" and o != nearest) or (mode == "exact" and abs(o - math.sqrt(s2)) > 1e-6):
+                return False      # not the convention this implementation uses everywhere else
         elif isinstance(e, float):
             if o is None or isinstance(o, bool):
                 return False
@@ -242,6 +262,28 @@ def cases(ctx):
                                      rng.randrange(2), rng.randrange(128)])
             yield "tc19", {"msgs": msgs}
             ctx.hit("exact_integer_speed_vectors")
+        i += 1
+    # every vector whose speed lies within 3e-4 kt of a whole number without being one (k*k -+ 1 and the like): a tolerance
+    # added before int() / round() ("guard against float noise") flips exactly these; subsonic and supersonic scale
+    near = []
+    for st, kk in ((1, 1), (2, 4)):
+        for a in range(0, 1023):
+            for b in range(a, 1023):
+                s2_ = kk * kk * (a * a + b * b)
+                t_ = _m.isqrt(s2_)
+                if t_ * t_ != s2_:
+                    fr = s2_ ** 0.5 - t_
+                    if fr < 3e-4 or fr > 1 - 3e-4:
+                        near.append((st, a, b))
+    for j in range(0, len(near), 64):
+        if ctx.mine(i):
+            msgs = []
+            for (st, a, b) in near[j:j + 64]:
+                for (u, v) in ((a, b), (b, a)):
+                    msgs.append([st, rng.randrange(2), u + 1, rng.randrange(2), v + 1, rng.randrange(2), rng.randrange(2), rng.randrange(512),
+                                 rng.randrange(2), rng.randrange(128)])
+            yield "tc19", {"msgs": msgs}
+            ctx.hit("speed_within_3e-4_of_a_whole_knot", len(msgs))
         i += 1
     if not quick:
         # thorough tier: the full cross product of both magnitudes (subtype 1 and 2 alternate)
